@@ -191,6 +191,131 @@ def run_one(args):
     out['expect'] = expect
     return out
 
+PROTO_HDR = b'AMQP\x00\x00\x09\x01'
+
+
+def stream_defect(data):
+    """what a broker's parser makes of one connection's byte stream: None when it is the protocol header (at a frame
+    boundary) plus complete, well-formed frames in which every Basic.Publish is followed on its channel by its header and
+    exactly the announced body bytes"""
+    pos, n = 0, len(data)
+    pending = {}                # channel -> ('header', None) | ('body', remaining)
+    while pos < n:
+        if data[pos:pos + 4] == b'AMQP':
+            if data[pos:pos + 8] != PROTO_HDR:
+                return 'bad protocol header at offset %d' % pos
+            pos += 8
+            continue
+        if n - pos < 8:
+            return 'stream ends inside a frame (offset %d of %d)' % (pos, n)
+        ty = data[pos]
+        ch = int.from_bytes(data[pos + 1:pos + 3], 'big')
+        size = int.from_bytes(data[pos + 3:pos + 7], 'big')
+        if ty not in (1, 2, 3, 8):
+            return 'frame type %d at offset %d' % (ty, pos)
+        if pos + 7 + size + 1 > n:
+            return 'stream ends inside a frame (offset %d of %d)' % (pos, n)
+        if data[pos + 7 + size] != 0xCE:
+            return 'frame at offset %d does not end with the frame-end octet' % pos
+        payload = data[pos + 7:pos + 7 + size]
+        st = pending.get(ch)
+        if ty == 1:
+            if st is not None:
+                return 'method frame on channel %d inside a published message (offset %d)' % (ch, pos)
+            if payload[:4] == b'\x00\x3c\x00\x28':          # Basic.Publish
+                pending[ch] = ('header', None)
+        elif ty == 2:
+            if st is None or st[0] != 'header':
+                return 'content header on channel %d without Basic.Publish (offset %d)' % (ch, pos)
+            body = int.from_bytes(payload[4:12], 'big')
+            if body:
+                pending[ch] = ('body', body)
+            else:
+                del pending[ch]
+        elif ty == 3:
+            if st is None or st[0] != 'body' or size == 0 or size > st[1]:
+                return 'body frame on channel %d that no header announced (offset %d)' % (ch, pos)
+            if size == st[1]:
+                del pending[ch]
+            else:
+                pending[ch] = ('body', st[1] - size)
+        pos += 7 + size + 1
+    if pending:
+        return 'stream ends inside the published message of channel %d' % sorted(pending)[0]
+    return None
+
+
+def reopen_one(args):
+    """writers publish on two channels while the application closes the connection and opens it again on the same object:
+    every socket's stream must still be complete frames (a writer caught in the middle of a buffer finishes it on the
+    socket it began on, or not at all)"""
+    seed, nwriters, sizes, rounds = args
+    import amqpstorm
+    from amqpstorm.exception import AMQPError
+    out = {'streams': [], 'main': None, 'other': []}
+
+    def scenario(ctx):
+        conn = amqpstorm.Connection('localhost', 'guest', 'guest', heartbeat=0, timeout=1)
+        chans = [conn.channel() for _ in range(2)]
+
+        def writer(i):
+            def fn():
+                try:
+                    for k in range(rounds):
+                        chans[i % 2].basic.publish(bytes([65 + i]) * sizes[i], 'rk%d' % i)
+                except AMQPError:
+                    pass
+                except Exception as why:      # (what a thread that keeps using a connection being re-opened gets is not C01's subject)
+                    out['other'].append(type(why).__name__)
+            return fn
+        ts = [ctx.spawn(writer(i), 'w%d' % i) for i in range(nwriters)]
+        try:
+            conn.close()
+            conn.open()
+            ch = conn.channel()
+            ch.queue.declare('after')
+            conn.close()
+        except AMQPError as why:
+            out['main'] = repr(why)
+        except Exception as why:
+            out['other'].append(type(why).__name__)
+        for t in ts:
+            ctx.join(t)
+        out['streams'] = [bytes(so.wire_out) for so in ctx.sched.sockets]
+
+    plan = vrt.FaultPlan(send_modes=(('full', 3), ('partial', 5), ('eagain', 1)))
+    ctx = vrt.run_scenario(scenario, refbroker.factory(refbroker.Policy()), seed=seed, plan=plan, p_preempt=0.15, p_jump=0.05,
+                           fair_time=(seed % 2 == 1), repo_path=str(common.REPO), max_steps=2000000, real_timeout=60.0,
+                           p_stall=0.3 if seed % 4 else 0.0, stall_on=('release', 'send'))
+    out['abort'] = ctx.sched.abort_reason
+    out['excs'] = [(t.name, repr(t.exc)) for t in ctx.sched.threads if t.exc is not None]
+    if not out['streams']:
+        out['streams'] = [bytes(so.wire_out) for so in ctx.sched.sockets]
+    out['defects'] = [(i, d) for i, d in ((i, stream_defect(st)) for i, st in enumerate(out['streams'])) if d]
+    out['streams'] = [len(st) for st in out['streams']]
+    return out
+
+
+def reopen_batch(rep, rng, n):
+    jobs = []
+    for _ in range(n):
+        nw = rng.randint(2, 4)
+        jobs.append((rng.randrange(1 << 30), nw, [rng.choice([40, 300, 5000, 9000, 20000]) for _ in range(nw)], rng.randint(2, 5)))
+    for job, r in zip(jobs, par.pmap(reopen_one, jobs)):
+        seed, nw, sizes, rounds = job
+        replay = {'kind': 'reopen-during-writes', 'seed': seed, 'writers': nw, 'sizes': sizes, 'rounds': rounds}
+        rep.case(('reopen', seed, nw, tuple(sizes), rounds), len(r['streams']) > 1, sample={'reopen': [nw, sizes, rounds]})
+        rep.count('reopen_sockets', len(r['streams']))
+        if r['defects']:
+            i, d = r['defects'][0]
+            rep.violation('C01/reopen/stream-of-connection-not-frames', 'close()/open() on one object while %d threads publish: the '
+                          'stream of socket #%d is not a sequence of complete frames: %s' % (nw, i + 1, d), replay)
+        elif r['abort'] != 'all application threads finished':
+            rep.violation('C01/reopen/run-did-not-finish', 'scenario ended with %s' % r['abort'], replay)
+        for k in r['other'][:1]:
+            rep.count('reopen_other_exception', k)
+        rep.count('reopen_main', 'reopened' if r['main'] is None and not r['other'] else 'open-failed')
+
 
 def check(rep):
     rng = random.Random(common.seed() * 9176 + 1)
@@ -200,6 +325,9 @@ def check(rep):
                 'optional heartbeat timer) x one random schedule (line-level pre-emption p=0.15, bounded time jumps) x socket behaviour '
                 '(full / partial k / EAGAIN per send); distinct = distinct recorded choice sequences; non-trivial = at least one '
                 'pre-emption and one partial send or EAGAIN while two writers were inside write_to_socket')
+    rep.rule += ('; plus: 2..4 threads publishing 40..20000-byte messages while the application closes and re-opens the same '
+                 'Connection object (partial sends, a thread may be held back in the middle of a buffer): every socket\'s stream is '
+                 'parsed by an independent frame/content parser')
     rep.assumptions = [
         'pre-emption explored at source-line granularity of amqpstorm/*.py plus every patched primitive; intra-line (bytecode) switches not explored',
         'kernel send() behaviour is represented by: accept a prefix of 1..n bytes, EAGAIN, or a fatal error; TLS not modelled',
@@ -235,6 +363,7 @@ def check(rep):
             owner += [idx] * len(r['lines'])
         else:
             rep.count('trace', 'skipped')
+    reopen_batch(rep, rng, 150 if not thorough else 4000)
     if rep.build.driver_ok:
         got = common.run_driver(all_lines)
         rep.corr_cases = len(all_lines)
@@ -251,6 +380,12 @@ def check(rep):
 
 def replay(data):
     r = data['replay']
+    if r.get('kind') == 'reopen-during-writes':
+        o = reopen_one((r['seed'], r['writers'], r['sizes'], r['rounds']))
+        print('abort=%s defects=%s excs=%s streams=%s' % (o['abort'], o['defects'][:2], o['excs'][:2], o['streams']))
+        bad = bool(o['defects']) or o['abort'] != 'all application threads finished'
+        print('VIOLATION reproduced' if bad else 'property holds on this schedule')
+        return 1 if bad else 0
     out = run_one((r['scenario'], r['seed'], r.get('choices')))
     print('abort=%s broker_violations=%s thread_excs=%s' % (out['abort'], out['broker_violations'][:3], out['thread_excs'][:3]))
     bad = out['broker_violations'] or out['thread_excs'] or out['abort'] != 'all application threads finished'
